@@ -251,6 +251,9 @@ func compactNumber(dst, src []byte, cursor int64) ([]byte, int64, error) {
 	if _, err := strconv.ParseFloat(*(*string)(unsafe.Pointer(&num)), 64); err != nil {
 		return nil, 0, err
 	}
+	if !isValidNumber(*(*string)(unsafe.Pointer(&num))) {
+		return nil, 0, errors.ErrSyntax("invalid number literal", cursor)
+	}
 	dst = append(dst, num...)
 	return dst, cursor, nil
 }
